@@ -260,11 +260,18 @@ def shards(tier):
     if tier == 'thorough':
         for i in range(16):
             out.append({'name': 'three-octets-%d' % i, 'kind': 'three', 'part': i, 'parts': 16})
+        for i in range(16):
+            out.append({'name': 'atheris-%d' % i, 'kind': 'atheris', 'seconds': 240, 'fuzzseed': i + 1})
     return out
 
 
 def run_shard(spec, seed, col, tier):
     kind = spec['kind']
+    if kind == 'atheris':
+        import sys as _sys
+        from vlib import fuzzshard
+        fuzzshard.run('C11', _sys.modules[__name__], col, spec['seconds'], seed % 1000 * 0 + spec['fuzzseed'])
+        return
     budget.enable()
     if kind == 'enum':
         names = decoder_groups(spec['ngroups'])[spec['group']]
@@ -342,3 +349,23 @@ def run_shard(spec, seed, col, tier):
 def replay(case):
     budget.enable()
     return call(case['decoder'], bytes.fromhex(case['data']))
+
+
+# ------------------------------------------------------------------------------------------ atheris
+_NAMES = None
+
+
+def fuzz_one(data):
+    """atheris target body: first octet selects the decoder"""
+    global _NAMES
+    if _NAMES is None:
+        _NAMES = sorted(DECODERS)
+    if not data:
+        return []
+    name = _NAMES[data[0] % len(_NAMES)]
+    return call(name, bytes(data[1:]))
+
+
+def fuzz_case(data):
+    name = sorted(DECODERS)[data[0] % len(DECODERS)] if data else sorted(DECODERS)[0]
+    return {'decoder': name, 'data': bytes(data[1:]).hex()}
